@@ -25,8 +25,32 @@ THEOREMS = ['steps_counts_steps', 'steps_over_history', 'factors_change_only_on_
 NOTES = 'Numeric part as C01 (tolerance). The reference machine is Model/Kfac.v; its interval/refresh properties are theorems.'
 
 
-def gen(rng, tier):
+def gen_resume(rng, tier):
+    """stratum: damping that depends on the step AND is baked into the second-order data, a checkpoint taken at a step that is not a
+    multiple of inv_update_steps, loaded with compute_inverses=True into a fresh object, then training continues"""
     from harness import kfacgen
+    model, in_shape = rng.choice(kfacgen.MODELS[:5])
+    method, prediv = rng.choice([('inverse', False), ('eigen', True), ('inverse', True)])
+    acc = rng.choice([1, 1, 2])
+    ius = rng.choice([2, 3, 5])
+    cfg = {
+        'model': model, 'in_shape': in_shape, 'batch': rng.choice([3, 4]), 'model_seed': rng.randrange(100), 'data_seed': rng.randrange(10 ** 6),
+        'compute_method': method, 'compute_eigenvalue_outer_product': prediv, 'colocate_factors': True,
+        'update_factors_in_hook': rng.random() < 0.6, 'accumulation_steps': acc,
+        'kl_clip': None, 'lr': 1.0, 'factor_decay': rng.choice([0.5, 0.75, 0.9]),
+        'damping': ['table', [0.25 + 0.125 * ((7 * s) % 11) for s in range(40)]],
+        'factor_update_steps': rng.choice([1, 2]), 'inv_update_steps': ius,
+    }
+    it = [['pass', 1] for _ in range(acc)] + [['step']]
+    s0 = rng.choice([s for s in range(1, 2 * ius) if s % ius != 0])
+    hist = it * s0 + [['save', 1], ['load', 0, 1]] + it * rng.randint(ius, ius + 2)
+    return cfg, hist
+
+
+def gen(rng, tier, k=None):
+    from harness import kfacgen
+    if k is not None and k % 5 == 0:
+        return gen_resume(rng, tier)
     model, in_shape = rng.choice(kfacgen.MODELS[:5])
     method = rng.choice(['eigen', 'eigen', 'inverse'])
     prediv = rng.random() < 0.5
@@ -167,7 +191,7 @@ def run(tier, seed, rng):
     n = 80 if tier == 'quick' else 800
     worst = 0.0
     for k in range(n):
-        cfg, hist = gen(rng, tier)
+        cfg, hist = gen(rng, tier, k)
         sv = kfacmachine.sched_values(cfg, hist)
         res, _ = kfacmachine.run_impl(cfg, hist, 1)
         mo = kfacmachine.run_model(cfg, hist, sv)
